@@ -54,7 +54,9 @@ fn main() {
         let mut cases = Vec::new();
         for _ in 0..per_db {
             // base query: FROM (1-2 items, joins allowed), optional WHERE w, predicate p over the FROM row
-            let cfg = GenCfg { setops: false, grouping: false, order: false, limit: false, distinct: false, ..GenCfg::default() };
+            // (no subqueries over the 100+-row tables: a correlated subquery per joined row runs into the
+            // executor's 300 s statement timeout)
+            let cfg = GenCfg { setops: false, grouping: false, order: false, limit: false, distinct: false, subqueries: !huge, ..GenCfg::default() };
             let (from, tys, w, p, proj, ptys) = {
                 let mut g = Gen { r: &mut r, db: &dbdef, cfg };
                 let (from, tys) = g.from_list(&[], if huge { 0 } else { 1 }, if huge { 1 } else { 2 });
@@ -165,9 +167,15 @@ fn main() {
             }
             let mut obs = Vec::new();
             let mut sqls = Vec::new();
+            let cases_before = cases.len();
+            let mut timed_out = false;
             for (j, (label, q)) in queries.iter().enumerate() {
                 let sql_text = to_sql(q);
                 let o = observe(&mut db, &sql_text);
+                if is_timeout(&o) {
+                    timed_out = true;
+                    break;
+                }
                 sum.evaluations += 1;
                 cases.push(format!("({}, {}, {})", case_base + j as u64, coq_query(q), coq_obs(&o)));
                 sum.model_cases += 1;
@@ -179,6 +187,13 @@ fn main() {
                 }
                 sqls.push(sql_text);
                 obs.push(o);
+            }
+            if timed_out {
+                // the executor's own 300 s statement timeout: no observation, the whole case is dropped
+                sum.model_cases -= (cases.len() - cases_before) as u64;
+                cases.truncate(cases_before);
+                sum.count("skipped:query-timeout");
+                continue;
             }
             let formname = ["plain", "distinct", "count", "sum-min-max", "group-by", "having", "count-true"][form as usize];
             sum.count(&format!("form:{}", formname));
